@@ -14,15 +14,27 @@ BOUNDARY = [0, 1, 2, 3, 2 ** 32 - 1, 2 ** 32, 2 ** 32 + 1, 2 ** 63, 2 ** 64 - 1,
 
 
 def oracle(nums, dens):
-    """Property statement, literally."""
+    """Property statement, literally.  A factor may itself be a ratio ("ratio", nums, dens): it is an ordinary uint64 expression that
+    is evaluated first (and whose failure is the program's failure)."""
+    def val(f):
+        if isinstance(f, (tuple, list)) and f and f[0] == "ratio":
+            r = oracle(f[1], f[2])
+            return None if r[0] != "approve" else r[1]
+        return f
+
     def running(fs):
         p = 1
         for f in fs:
+            f = val(f)
+            if f is None:
+                return "inner-fail"
             p *= f
             if p >= U128:
                 return None
         return p
     n, d = running(nums), running(dens)
+    if n == "inner-fail" or d == "inner-fail":
+        return ("fail",)
     if n is None or d is None or d == 0:
         return ("fail",)
     q = n // d
@@ -34,7 +46,11 @@ def oracle(nums, dens):
 def run_real(nums, dens, version):
     import pyteal as pt
     from spec import avm
-    prog = pt.Seq(pt.Log(pt.Itob(pt.WideRatio([pt.Int(x) for x in nums], [pt.Int(x) for x in dens]))), pt.Approve())
+    def ex(f):
+        if isinstance(f, (tuple, list)) and f and f[0] == "ratio":
+            return pt.WideRatio([ex(x) for x in f[1]], [ex(x) for x in f[2]])
+        return pt.Int(f)
+    prog = pt.Seq(pt.Log(pt.Itob(pt.WideRatio([ex(x) for x in nums], [ex(x) for x in dens]))), pt.Approve())
     teal = pt.compileTeal(prog, pt.Mode.Application, version=version)
     r = avm.run(teal, avm.Ctx())
     if r.verdict == "approve":
@@ -59,6 +75,15 @@ def gen_cases(tier, seed):
     cases += [([2 ** 64 - 1, 2 ** 64 - 1], [1, 1]), ([2 ** 64 - 1, 2 ** 64 - 1, 2], [2 ** 64 - 1, 4]),
               ([2 ** 64 - 1, 2 ** 64 - 1, 1], [2 ** 64 - 1, 2 ** 64 - 1]), ([2 ** 63, 2 ** 63, 4, 0], [1, 1]),
               ([2 ** 63, 4, 2 ** 63], [2 ** 63, 2 ** 63, 4]), ([5], [0, 3]), ([7, 9], [2]), ([2 ** 64 - 1], [1, 1])]
+    # a WideRatio used as a factor of another one: an ordinary uint64 sub-expression (inexact / overflowing / failing inner ratios)
+    R = lambda n, d: ("ratio", n, d)
+    cases += [([R([7, 1], [2]), 2], [1]), ([R([2 ** 63, 4], [1]), 1], [8]), ([R([2 ** 63, 2], [1]), 2 ** 63, 4], [2 ** 63, 8]), ([3, R([9, 1], [4])], [R([5, 5], [2])]),
+              ([10], [R([1, 1], [3]), 5]), ([R([R([100, 3], [7]), 5], [3]), 2], [3]), ([2 ** 64 - 1, 2], [R([2 ** 64 - 1, 2], [1])]), ([R([5, 1], [0]), 1], [1])]
+    for _ in range(10 if tier == "quick" else 80):
+        inner = R([rnd.choice(BOUNDARY) for _ in range(2)], [rnd.choice(BOUNDARY[1:]) for _ in range(rnd.randrange(1, 3))])
+        nums = [rnd.choice(BOUNDARY)] + [inner]
+        rnd.shuffle(nums)
+        cases.append((nums, [rnd.choice(BOUNDARY[1:]) for _ in range(rnd.randrange(1, 3))]))
     return cases
 
 
@@ -69,7 +94,7 @@ def bounded(report: Report, tier, seed, want_first_failure=False):
     n = 0
     for i, (nums, dens) in enumerate(cases):
         v = versions[i % len(versions)]
-        key = (tuple(nums), tuple(dens), v)
+        key = (repr(nums), repr(dens), v)
         if key in seen:
             continue
         seen.add(key)
@@ -107,6 +132,7 @@ def run(report: Report, tier, seed):
     def search(fn, obs):
         return fails[0] if fails else None
 
+    report.settle_undecided(search)
     report.settle_refuted(search)
     if fails and not any(o.status == "refuted" for o in report.obs):
         f = fails[0]
